@@ -27,6 +27,7 @@ EXEC_IDS = ("Stage::execute", "Stage::execute_seq", "SendDispatcher::dispatch", 
 def rules(ctx, report, facts, config, pfx="C01"):
     report.guard(pfx + ".MATRIX", P.matrix, ctx, report, pfx + ".MATRIX", facts, config, ("matrix", "index"))
     report.guard(pfx + ".ALLGROUPS", P.allgroups, ctx, report, pfx + ".ALLGROUPS", facts, config)
+    report.guard(pfx + ".INTERSECT", P.intersect_body, ctx, report, pfx + ".INTERSECT", facts, config)
     report.guard(pfx + ".ACCEPT", P.accept, ctx, report, pfx + ".ACCEPT", facts, config, ("chain", "accept-sound"))
     report.guard(pfx + ".SLOT", S.slot, ctx, report, pfx + ".SLOT", facts, config)
     report.guard(pfx + ".LOCKSTEP", S.lockstep, ctx, report, pfx + ".LOCKSTEP", facts, config)
